@@ -4,6 +4,7 @@ package harness
 // Also holds the reference SipHash-2-4 / GCS model used by C14.
 
 import (
+	"bytes"
 	"encoding/binary"
 	"fmt"
 	"math/bits"
@@ -325,8 +326,28 @@ func evalC13(c c13Case, o *Obs) error {
 			}
 		}
 	}
+	// a sibling filter (other key, other parameters) is built and queried in between, and every
+	// query is asked twice: answers must be stable and filters must not share state
+	var hk [16]byte
+	copy(hk[:], c.D.Key)
+	hk[0] ^= 0xff
+	hp := uint8((int(c.D.P) + 5) % 33)
+	var hitems [][]byte
+	for i := 0; i < len(items) && i < 50; i++ {
+		hitems = append(hitems, append([]byte{0xee}, items[i]...))
+	}
+	hitems = append(hitems, []byte("sibling"))
+	h, err := gcs.BuildGCSFilter(hp, uint64(1)<<hp, hk, hitems)
+	if err != nil {
+		return fmt.Errorf("sibling BuildGCSFilter failed: %v", err)
+	}
+	fbytes, _ := f.NBytes()
 	for qi, q := range c.Qs {
 		query := q.resolve(items, c.D.Seed)
+		if ok, err := h.Match(hk, hitems[qi%len(hitems)]); err != nil || !ok {
+			return fmt.Errorf("%s: sibling filter lost its member (%v, %v)", desc, ok, err)
+		}
+		h.MatchAny(hk, query)
 		want := false
 		for _, x := range query {
 			rv := refReduce(refSipHash(key, x), np)
@@ -360,6 +381,17 @@ func evalC13(c c13Case, o *Obs) error {
 			if err != nil || got != want {
 				return fmt.Errorf("%s query %d (%d items): %s = %v,%v but individually matching items exist = %v", desc, qi, len(query), st.name, got, err, want)
 			}
+			if again, err := st.fn(key, query); err != nil || again != got {
+				return fmt.Errorf("%s query %d: %s answers %v the first time and %v the second time", desc, qi, st.name, got, again)
+			}
+		}
+	}
+	if after, _ := f.NBytes(); !bytes.Equal(after, fbytes) {
+		return fmt.Errorf("%s: the filter's serialisation changed while it was being queried", desc)
+	}
+	if f2, err := gcs.BuildGCSFilter(c.D.P, c.D.M, key, items); err == nil {
+		if b2, _ := f2.NBytes(); !bytes.Equal(b2, fbytes) {
+			return fmt.Errorf("%s: building the same filter a second time gives different bytes", desc)
 		}
 	}
 	return nil
